@@ -150,7 +150,8 @@ func runOnce(job *kjob.Job, o RunOpts) (*RunResult, error) {
 		args = append(args, bin, jobPath)
 		cmd = exec.CommandContext(ctx, "strace", args...)
 	} else if o.HideSysctl && o.Uid == 0 {
-		cmd = exec.CommandContext(ctx, "unshare", "-m", "--propagation", "private", "sh", "-c", `mount -t tmpfs tmpfs /proc/sys/kernel/seccomp 2>/dev/null; exec "$0" "$1"`, bin, jobPath)
+		// (where a mount namespace cannot be had the child simply runs as it is and reports the sysctl as visible)
+		cmd = exec.CommandContext(ctx, "sh", "-c", `if unshare -m --propagation private true 2>/dev/null; then exec unshare -m --propagation private sh -c 'mount -t tmpfs tmpfs /proc/sys/kernel/seccomp 2>/dev/null; exec "$0" "$1"' "$0" "$1"; else exec "$0" "$1"; fi`, bin, jobPath)
 	} else {
 		cmd = exec.CommandContext(ctx, bin, jobPath)
 		if o.Uid != 0 {
